@@ -177,6 +177,9 @@ SNAP_CFGS = [
          iterator='euler', maxsteps=500, name='snap-binary-ramp-out-of-field', faults=[], constraints={'maxTempChange': 5.0}),
     dict(sys='binary', phases=['B1'], x0=2e-2, T={'kind': 'iso', 'T': 700.0}, gammas=[0.15], segments=[2.0], minDtFrac=1e-4,
          iterator='rk4', maxsteps=150, name='snap-binary-rk4', faults=[['df', 11]], betaFunc=2),
+    # up-quench above the solvus while nucleating: the driving force turns negative at a step with a large recorded rate
+    dict(BASES['binary'], name='snap-binary-upquench', T={'kind': 'table', 'times': [0.0, 0.005, 0.0051, 2.0], 'temps': [700.0, 700.0, 1400.0, 1400.0]},
+         segments=[19.0], minDtFrac=1e-4, maxsteps=700, faults=[], nuc_stride=13, snap_stride=91),
     dict(BASES['alzr'], name='snap-alzr', maxsteps=40, faults=[['df', 9], ['icp', 1]]),
     dict(BASES['nicral'], name='snap-nicral', maxsteps=40, faults=[['gr', 4], ['gr', 5], ['df', 12], ['gr', 20]]),
     dict(BASES['ternary'], name='snap-ternary-euler', segments=[40.0], maxsteps=300, minDtFrac=1e-4,
@@ -382,13 +385,13 @@ def gmulti_term(rep, rec):
         RT, boollit(rep), qlit(rec['dG']), qlit(rec['dens']), natlit(rec['nb']), natlit(rec['ne']), ql(rec['kin']), prevG, ql(rec['yA']), ql(rec['yB']), backend, impl)
 
 
-def nuc_term(rep, rec):
+def nuc_term(rep, rec, zeroed=True):
     pv = rec['prev']
     prev = '(mkN Qops %s)' % ' '.join(qlit(v) for v in pv)
     df = 'None' if rec['df'] is None else '(Some %s)' % qlit(rec['df'])
     o = '(mkNO Qops %s %s %s %s %s %s)' % (df, qlit(rec['Rprop']), qlit(rec['Gcrit']), qlit(rec['beta']), qlit(rec['rate']), qlit(rec['radd']))
     impl = 'None' if rec['raised'] is not None else '(Some %s)' % ql(rec['after'])
-    return 'check03_nuc %s %s %s %s %s %s %s %s' % (RT, boollit(rep), qlit(rec['Rmin']), qlit(rec['minDens']), qlit(rec['dtprev']), prev, o, impl)
+    return 'check03_nuc %s %s %s %s %s %s %s %s %s' % (RT, boollit(rep), boollit(zeroed), qlit(rec['Rmin']), qlit(rec['minDens']), qlit(rec['dtprev']), prev, o, impl)
 
 
 def getdt_term(rec):
@@ -587,7 +590,17 @@ def run(ctx):
             if allfinite(rec, ['dG', 'dens', 'kin', 'prevG', 'yA', 'yB', 'rate', 'eqA', 'eqB', 'backend']):
                 terms.append(gmulti_term(rep, rec))
                 tags.append(('growth_multi', c['name'], rec['p'], c))
-        for rec in r['recs']['nuc'][:14 if quick else 80]:
+        # the calls that take one of the early exits (no result, negative driving force, no impingement) come first
+        def nuc_rank(rec):
+            if rec['df'] is None or rec['raised'] is not None:
+                return 0
+            if rec['df'] < 0 and any(v != 0 for v in rec['prev'][1:]):
+                return 1
+            if rec['df'] < 0 or rec['beta'] == 0:
+                return 2
+            return 3
+        nucs = sorted(enumerate(r['recs']['nuc']), key=lambda t: (nuc_rank(t[1]), t[0]))
+        for _i, rec in nucs[:14 if quick else 80]:
             if allfinite(rec, ['prev', 'df', 'Rprop', 'Gcrit', 'beta', 'rate', 'radd', 'after']):
                 terms.append(nuc_term(rep, rec))
                 tags.append(('nucleation', c['name'], rec['p'], c))
